@@ -44,15 +44,15 @@ def plan(tier, seed):
     q = tier == 'quick'
     specs = []
     for fam in NUM_FAMS:
-        specs.append(dict(label=fam, family=fam, cases=3000 if q else 30000,
+        specs.append(dict(label=fam, family=fam, cases=3000 if q else 500000,
                           seed=seed, tier=tier, variant='mon',
-                          timeout=900 if q else 3000))
+                          timeout=900 if q else 7200))
     for fam in (['II', 'OF', 'LQ', 'UF'] if q else NUM_FAMS):
         if fam not in NUM_FAMS:
             continue
         specs.append(dict(label=fam + '-asan', family=fam,
-                          cases=250 if q else 1500, seed=seed + 13, tier=tier,
-                          variant='asan', timeout=1500 if q else 3000))
+                          cases=250 if q else 20000, seed=seed + 13, tier=tier,
+                          variant='asan', timeout=1500 if q else 7200))
     return specs
 
 
